@@ -94,7 +94,7 @@ class Prog:
         self.conds = [self.stm.Condition() for _ in range(nconds)]
         self.tempo = [self.clk.TempoClock(num(t)) for t in case['tempi']]
         self.addr = env['NetAddr']('127.0.0.1', 57110)
-        self.gens, self.draw_values, self.draw_diag = {}, [], []
+        self.gens, self.draw_values, self.draw_diag, self.law, self.saved = {}, [], [], {}, {}
         self.forms = make_forms(env['bi'])
         run = self
 
@@ -124,7 +124,7 @@ class Prog:
     def register(self, obj, key):
         """Remember a generator OBJECT under the seed it was created with (first registration wins)."""
         if id(obj) not in self.gens:
-            self.gens[id(obj)] = [obj, key, 0]
+            self.gens[id(obj)] = [obj, key, 0, []]      # object, seed, draws so far, forms drawn since the seed
 
     def draw(self, i, form):
         """Call one builtin random function; report WHICH generator object it read, by comparing the states of
@@ -137,6 +137,14 @@ class Prog:
             g = self.gens[changed[0]]
             self.events.append(f'D:{i}:{g[1]}:{g[2]}')
             g[2] += 1
+            # the value is a function of (seed, the forms drawn from that stream so far): equal seeds in two
+            # routines, a second play and a restored rand_state must all reproduce it
+            g[3] = g[3] + [form % len(FORM_NAMES)]
+            k = (g[1], tuple(g[3]))
+            if self.law.setdefault(k, repr(value)) != repr(value):
+                self.draw_diag.append(f'{FORM_NAMES[form % len(FORM_NAMES)]} in routine {i}: draw #{g[2] - 1} of a '
+                                      f'generator seeded {g[1]} gave {value!r}, the same seed and history gave '
+                                      f'{self.law[k]} before')
         else:
             keys = [self.gens[k][1] for k in changed]
             self.events.append(f'D:{i}:?:{len(changed)}')
@@ -240,6 +248,22 @@ class Prog:
                 elif op == 'yv':
                     me, clock = yield {'T': True, 'F': False, 'N': None, 'S': 'later', 'O': object()}[a[1]]
                     resumed(k + 1, clock)
+                elif op == 'save':
+                    r = run.R[a[2]]
+                    if r is not None:
+                        st = r.rand_state               # read from inside (a[2] == i) or from outside
+                        if st != r._rgen.getstate():
+                            run.draw_diag.append(f'rand_state of routine {a[2]} read by routine {i} is not the state '
+                                                 f'of routine {a[2]}\'s own generator')
+                        hit = [g for g in run.gens.values() if g[0].getstate() == st]
+                        run.saved[a[1]] = (st, (hit[0][1], hit[0][2], list(hit[0][3])) if hit else None)
+                elif op == 'restore':
+                    r, sv = run.R[a[2]], run.saved.get(a[1])
+                    if r is not None and sv is not None:
+                        r.rand_state = sv[0]
+                        g = run.gens.get(id(r._rgen))
+                        if g is not None and sv[1] is not None:
+                            g[1], g[2], g[3] = sv[1][0], sv[1][1], list(sv[1][2])
                 elif op == 'pull':
                     if a[1] != i:
                         r = run.R[a[1]] or run.create(a[1], sub=True)
@@ -275,6 +299,17 @@ class Prog:
         self.R[0].play(self.clock(self.case['root']), 0)
 
 
+RT_CASE_TIMEOUT = 25      # wall-clock seconds for one program in virtual time (normally < 0.1 s)
+
+
+class Livelock(Exception):
+    pass
+
+
+def _alarm(signum, frame):
+    raise Livelock()
+
+
 def boot_nrt():
     if _env:
         return _env
@@ -289,41 +324,59 @@ def boot_nrt():
     return _env
 
 
+def nrt_blank(err):
+    return {'raw_sha1': None, 'draw_values': [], 'draw_diag': [], 'trace': ' | end=0 pend=0', 'bundles': [],
+            'task_times': [], 'elapsed': '0', 'error': err}
+
+
 def nrt_play(env, p, case, first):
+    """One score.  Whatever the code under test does (exception, hang) becomes the `error` of the output."""
     main = env['main']
-    if first:
-        p.start_root()
-    else:
-        main.reset()
-        main.current_tt = main.main_tt
-        p.replay(0)
-        p.play_root_again()
-    err = None
+    err, score = None, None
+    signal.signal(signal.SIGALRM, _alarm)
+    signal.setitimer(signal.ITIMER_REAL, RT_CASE_TIMEOUT)
     try:
+        if first:
+            p.start_root()
+        else:
+            main.reset()                 # documented: "Reset sc3 time, scheduler and command scores"
+            p.replay(0)
+            p.play_root_again()
         score = main.process(num(case.get('tail', '0')))
-    except Exception as e:      # must not happen
+    except Livelock:
+        err = f'hang: no answer within {RT_CASE_TIMEOUT} s'
+    except BaseException as e:
         err = f'{type(e).__name__}: {e}'
-        score = None
-    end = main.main_tt._m_seconds
-    pend = sum(1 for _ in main._clock_scheduler.queue)
-    bundles = []
-    if score is not None:
-        for b in score.list:
-            if len(b) == 2 and b[1][0] == '/c10':
-                bundles.append([fr(b[0] - lat_of(b[1][2])), b[1][2]])
-    times = [fr(t) for _, t in p.moves]
-    raw = hashlib.sha1(bytes(score.raw)).hexdigest() if score is not None else None
-    return {'raw_sha1': raw, 'draw_values': p.draw_values, 'draw_diag': p.draw_diag,
-            'trace': ' '.join(p.events) + f' | end={fr(end)} pend={pend}', 'bundles': bundles,
-            'task_times': times, 'elapsed': fr(main.elapsed_time()), 'error': err}
+    finally:
+        signal.setitimer(signal.ITIMER_REAL, 0)
+    try:
+        end = main.main_tt._m_seconds
+        pend = sum(1 for _ in main._clock_scheduler.queue)
+        bundles = []
+        if score is not None:
+            for b in score.list:
+                if len(b) == 2 and b[1][0] == '/c10':
+                    bundles.append([fr(b[0] - lat_of(b[1][2])), b[1][2]])
+        times = [fr(t) for _, t in p.moves]
+        raw = hashlib.sha1(bytes(score.raw)).hexdigest() if score is not None else None
+        return {'raw_sha1': raw, 'draw_values': p.draw_values, 'draw_diag': p.draw_diag,
+                'trace': ' '.join(p.events) + f' | end={fr(end)} pend={pend}', 'bundles': bundles,
+                'task_times': times, 'elapsed': fr(main.elapsed_time()), 'error': err}
+    except BaseException as e:
+        return nrt_blank(err or f'{type(e).__name__}: {e}')
 
 
 def nrt_case(case):
     env = boot_nrt()
     main = env['main']
-    main.reset()
-    main.current_tt = main.main_tt
-    p = Prog(env, case, 0)
+    try:
+        # cases are independent: start from a clean library state (repairing what an earlier case left)
+        main.current_tt = main.main_tt
+        main.reset()
+        main.current_tt = main.main_tt
+        p = Prog(env, case, 0)
+    except BaseException as e:
+        return nrt_blank(f'setup: {type(e).__name__}: {e}')
     out = nrt_play(env, p, case, True)
     if case.get('rerun'):
         out['rerun'] = nrt_play(env, p, case, False)
@@ -351,28 +404,25 @@ def boot_rt():
     return _env
 
 
-RT_CASE_TIMEOUT = 25      # wall-clock seconds for one program in virtual time (normally < 0.1 s)
-
-
-class Livelock(Exception):
-    pass
-
-
-def _alarm(signum, frame):
-    raise Livelock()
-
-
 def rt_case(case):
     env = boot_rt()
     if env.get('broken'):
         return {'skipped': True, 'trace': ' | end=0 pend=0', 'moves': [], 'bundles': [], 'start': '0',
                 'error': None, 'phys': []}
-    out = rt_play(env, case, None)
-    if case.get('rerun') and not env.get('broken') and out.get('_prog') is not None:
-        out['rerun'] = rt_play(env, case, out['_prog'])
-        out['rerun'].pop('_prog', None)
-    out.pop('_prog', None)
-    return out
+    try:
+        out = rt_play(env, case, None)
+        if case.get('rerun') and not env.get('broken') and out.get('_prog') is not None:
+            out['rerun'] = rt_play(env, case, out['_prog'])
+            out['rerun'].pop('_prog', None)
+        out.pop('_prog', None)
+        return out
+    except BaseException as e:
+        # the code under test failed outside a guarded region: an observation of THIS case; the virtual-time
+        # state can no longer be trusted, the remaining cases are skipped
+        env['broken'] = True
+        signal.setitimer(signal.ITIMER_REAL, 0)
+        return {'trace': ' | end=0 pend=0', 'moves': [], 'bundles': [], 'start': '0', 'phys': [],
+                'draw_values': [], 'draw_diag': [], 'error': f'crash: {type(e).__name__}: {e}'}
 
 
 def rt_play(env, case, prog):
